@@ -34,7 +34,10 @@ RULE = ("case = (model/option, spectral class, seed) -> one random admissible co
         "eigen-solver, Ce = Fe^T Fe computed by the harness from F and the state) is in the class {reference, distinct, exactly repeated pair "
         "axis-aligned / in-plane / generic, triple, near-degenerate gap 10^-k}; J2 points are placed at 0.15-0.8 (elastic) or 1.2-20 (yielding) "
         "times the current flow stress. Non-trivial = at least one direction of a point survived the regime and stencil-agreement filters "
-        "away from the reference state; distinct = canonical hash of the case parameters.")
+        "away from the reference state; distinct = canonical hash of the case parameters. Unit systems: 30 % of the cases move every stress-like "
+        "constant by 10^k (k in -12..12); 'scale_sweep' cases repeat one dimensionless material and the same points (J2: two forced-yielding, one "
+        "elastic, distinct spectrum) at modulus 2^k / 10^k over 1e-12..1e12 with the full finite-difference oracle at every scale and per-band "
+        "minimum counts (in particular yielding tangents at 3*mu >= 1e10).")
 ASSUMPTIONS = [
     "8th-order central differences of the jitted primal energy with step h = ell/25 (ell = distance to the nearest regime switch / strain "
     "scale of the point) are accurate to << 1e-8 relative inside one regime; enforced per direction by requiring agreement of the widths h "
@@ -57,9 +60,16 @@ REQUIRED = {
         "known_class_second_evals": 200, "pow_near_repeated_first_evals": 100,
         "batched_replica_points": 100, "mechanics_output_points": 8,
         "nonvirgin_state_points": 100,
+        # absolute-scale sweep of the constants (same dimensionless material in unit systems 1e-12 .. 1e12)
+        "scale_sweep_points": 300, "cases_with_random_unit_system": 30,
+        "band:>=1e10:second_dirs_kept:yielding": 150, "band:<1e-6:second_dirs_kept:yielding": 100,
+        "band:>=1e10:second_dirs_kept:elastic": 100, "band:>=1e10:first_dirs_kept": 1000,
     },
     "thorough": {"gap_sweep_points": 500},
 }
+for _b in Z.SCALE_BANDS:
+    REQUIRED["all"]["band:%s:second_dirs_kept" % _b] = 200
+    REQUIRED["all"]["band:%s:first_dirs_kept" % _b] = 300
 for _c in Z.SPECTRAL_CLASSES:
     REQUIRED["all"]["class:" + _c] = 20
 WATCHDOG_S = {"quick": 2400, "thorough": 4 * 3600}
@@ -81,11 +91,17 @@ def build_cases(tier, seed):
         for cls, ncase, npts in plan:
             n = ncase * (mult if cls != "reference" else max(1, mult // 6))
             for i in range(n):
+                sd = derive_seed(seed, PROPERTY, cls, name, i)
                 cases.append({"cls": cls, "cfg": name, "group": name, "npts": npts, "cost": npts * heavy + (40.0 * heavy if (cls == "reference" and i == 0) else 0.0),
-                              "seed": derive_seed(seed, PROPERTY, cls, name, i)})
+                              "seed": sd, "scale": Z.random_case_scale(rng_of(derive_seed(sd, "unit system")))})
         for i in range(1 if quick else 6):
+            sd = derive_seed(seed, PROPERTY, "batched_replica", name, i)
             cases.append({"cls": "batched_replica", "cfg": name, "group": name, "cost": 12.0 * heavy if i == 0 else 2.0,
-                          "seed": derive_seed(seed, PROPERTY, "batched_replica", name, i)})
+                          "seed": sd, "scale": Z.random_case_scale(rng_of(derive_seed(sd, "unit system")))})
+        # the same dimensionless material and the same points in 14 unit systems (modulus 2^k, 10^k over 1e-12 .. 1e12)
+        for i in range(1 if quick else 12):
+            cases.append({"cls": "scale_sweep", "cfg": name, "group": name, "scales": Z.SWEEP_SCALES, "cost": 1.5 * len(Z.SWEEP_SCALES) * heavy,
+                          "seed": derive_seed(seed, PROPERTY, "scale_sweep", name, i)})
         if Z.CONFIGS[name]["eig"]:
             ks = [6, 10] if quick else list(range(5, 15))
             for k in ks:
@@ -95,7 +111,7 @@ def build_cases(tier, seed):
     for j, name in enumerate(["neo_adagio", "le_log", "j2_large_voce", "j2_small_lin"]):
         for i in range(1 if quick else 5):
             cases.append({"cls": "mechanics_output", "cfg": name, "group": "mech:" + name, "cost": 15.0,
-                          "seed": derive_seed(seed, PROPERTY, "mechanics_output", name, i)})
+                          "seed": derive_seed(seed, PROPERTY, "mechanics_output", name, i), "scale": [1.0, 1e-9, 2.0 ** 37, 1e6][(i + j) % 4]})
     only = os.environ.get("VERIF_ONLY_CFG")  # debugging / mutation runs only (use together with --only so that no evidence is written)
     if only:
         cases = [c for c in cases if only in c["cfg"]]
@@ -218,7 +234,7 @@ def _former_d13_class(name, cls, info):
     return Z.CONFIGS[name]["eig"] == "pow" and cls != "reference" and g is not None and g <= 1e-6
 
 
-def _check_point(res, name, pt, cvec, tagcls, ndir2=6, rng=None):
+def _check_point(res, name, pt, cvec, tagcls, ndir2=6, rng=None, band=None):
     """All derivative checks at one point. pt: dict(H, state, dt, aux, ell, info, cls)."""
     f = _fns(name)
     H, state, dt, aux, ell, info = pt["H"], pt["state"], pt["dt"], pt["aux"], pt["ell"], pt["info"]
@@ -267,6 +283,8 @@ def _check_point(res, name, pt, cvec, tagcls, ndir2=6, rng=None):
             res.bound("first_derivative" + (KF if m1 else ""), err, tol1, dict(det, component=[i, j], fd=da, fd_half=db, autodiff=P0[i, j], scale=scaleP), m1)
             res.count("first_dirs_kept")
             res.count("first_dirs_kept:" + regname)
+            if band:
+                res.count("band:%s:first_dirs_kept" % band)
             if d13cls:
                 res.count("pow_near_repeated_first_evals")
             kept_any = True
@@ -304,6 +322,9 @@ def _check_point(res, name, pt, cvec, tagcls, ndir2=6, rng=None):
                 res.bound("second_derivative" + (KF if m2 else ""), err, tol2,
                           dict(det, V=V, fd=da, autodiff=t, scale=scaleT, rel_err=err / scaleT), m2)
                 kept2 += 1
+                if band:
+                    res.count("band:%s:second_dirs_kept" % band)
+                    res.count("band:%s:second_dirs_kept:%s" % (band, regname))
                 res.count("second_dirs_kept")
                 res.count("second_dirs_kept:%s:%s" % (regname, tagcls))
                 if m2:
@@ -332,6 +353,7 @@ def _check_point(res, name, pt, cvec, tagcls, ndir2=6, rng=None):
     if ev.j2 and reg0 == 1 and tagcls == "distinct" and kept2 > 0:
         res.count("yielding_distinct_points:" + name)
     pt["_worst"] = (worst1, worst2)
+    pt["_centre"] = (W0, P0, TV[0], regname)
     return True
 
 
@@ -359,7 +381,7 @@ def _history_state(res, name, cvec, rng, virgin_prob=0.3):
     return st, moved
 
 
-def _make_point(res, name, cls, cvec, rng, gap=None):
+def _make_point(res, name, cls, cvec, rng, gap=None, force=None):
     """Deformation point of spectral class `cls` for configuration `name` (see module docstring)."""
     cfg = Z.CONFIGS[name]
     mu, kappa = Z.moduli(name, cvec)
@@ -395,7 +417,8 @@ def _make_point(res, name, cls, cvec, rng, gap=None):
         eq = float(st[0])
         Y = Z.flow_stress(name, cvec, eq)
         ey = Y / (math.sqrt(6.0) * mu)  # deviatoric log-strain norm at yield
-        if rng.random() < 0.5:
+        u_reg = rng.random()
+        if (u_reg < 0.5 and force is None) or force == "elastic":
             fac = float(rng.uniform(0.15, 0.8))
             ell = 0.2 * ey
         else:
@@ -533,6 +556,8 @@ def _run_points(res, case, rng):
     name, cls = case["cfg"], case["cls"]
     gap = 10.0 ** (-case["k"]) if cls == "gap_sweep" else None
     cvec = Z.sample_consts(name, rng, yield_strain=float(loguniform(rng, 1e-3, 3e-2)) if Z.is_j2(name) else None)
+    cvec = _apply_case_scale(res, name, cvec, case)
+    band = Z.scale_band(name, cvec)
     curve = []
     for ip in range(case["npts"]):
         c = cls
@@ -547,7 +572,7 @@ def _run_points(res, case, rng):
         if pt is None:
             continue
         tagcls = "distinct" if c == "distinct" else ("reference" if c == "reference" else "repeated")
-        ok = _check_point(res, name, pt, cvec, tagcls, rng=rng)
+        ok = _check_point(res, name, pt, cvec, tagcls, rng=rng, band=band)
         if ok and cls == "gap_sweep":
             res.count("gap_sweep_points")
             curve.append([case["k"], Z.CONFIGS[name]["eig"], pt["_worst"][0], pt["_worst"][1]])
@@ -555,11 +580,72 @@ def _run_points(res, case, rng):
         res.obs["curve"] = curve
 
 
+def _apply_case_scale(res, name, cvec, case):
+    sc = float(case.get("scale", 1.0))
+    if sc != 1.0:
+        res.count("cases_with_random_unit_system")
+        return Z.scale_consts(name, cvec, sc)
+    return cvec
+
+
+def _run_scale_sweep(res, case, rng):
+    """The same dimensionless material (leading modulus normalised to 1) and the same deformation points evaluated with every
+    stress-like constant multiplied by s, s in powers of two and ten over 1e-12 .. 1e12.  The deciding clauses are the ordinary
+    finite-difference ones at every scale; W/s, P/s, T/s against the scale-1 values are recorded as a diagnostic (closest_calls
+    `scale_homogeneity_*`, no verdict) together with the number of bitwise-exact power-of-two replicas."""
+    name = case["cfg"]
+    allc = {}
+    forces = ["yielding", "elastic", "yielding"] if Z.is_j2(name) else [None]
+    for s in case["scales"]:
+        r = rng_of(case["seed"])  # identical random stream at every scale
+        cv = Z.sample_consts(name, r, yield_strain=float(loguniform(r, 1e-3, 3e-2)) if Z.is_j2(name) else None)
+        cv = Z.scale_consts(name, Z.normalize_consts(name, cv), s)
+        band = Z.scale_band(name, cv)
+        centres = []
+        for force in forces:
+            pt = None
+            for _ in range(10):
+                pt = _make_point(res, name, "distinct", cv, r, None, force=force)
+                if pt is not None and _class_consistent(res, name, pt):
+                    break
+                pt = None
+            if pt is None:
+                centres.append(None)
+                continue
+            ok = _check_point(res, name, pt, cv, "distinct", rng=r, band=band)
+            centres.append((pt["H"], pt["_centre"]) if ok else None)
+            if ok:
+                res.count("scale_sweep_points")
+                res.count("scale_sweep_points:" + band)
+        allc[s] = centres
+    base = allc.get(1.0)
+    if base is None:
+        return
+    for s, centres in allc.items():
+        if s == 1.0:
+            continue
+        pow2 = math.frexp(s)[0] == 0.5
+        for b, c in zip(base, centres):
+            if b is None or c is None or not onp.array_equal(b[0], c[0]) or b[1][3] != c[1][3]:
+                res.count("scale_homogeneity_points_not_comparable")
+                continue
+            (W1, P1, T1, _), (Ws, Ps, Ts, _) = b[1], c[1]
+            res.ratio("scale_homogeneity_W(diagnostic)", abs(Ws / s - W1), 1e-9 * abs(W1) + 1e-300)
+            res.ratio("scale_homogeneity_P(diagnostic)", float(onp.abs(Ps / s - P1).max()), 1e-9 * float(onp.abs(P1).max()) + 1e-300)
+            res.ratio("scale_homogeneity_T(diagnostic)", float(onp.abs(Ts / s - T1).max()), 1e-7 * float(onp.abs(T1).max()) + 1e-300)
+            res.count("scale_homogeneity_points_compared")
+            if pow2 and Ws / s == W1 and onp.array_equal(Ps / s, P1) and onp.array_equal(Ts / s, T1):
+                res.count("pow2_bitwise_exact_replicas")
+            elif pow2:
+                res.count("pow2_replicas_equal_to_rounding_only")
+
+
 def _run_batched_replica(res, case, rng):
     """jit(vmap) replica of the distinct class must reproduce the single-call stress and tangent."""
     import jax.numpy as np
     name = case["cfg"]
     cvec = Z.sample_consts(name, rng, yield_strain=float(loguniform(rng, 3e-3, 3e-2)) if Z.is_j2(name) else None)
+    cvec = _apply_case_scale(res, name, cvec, case)
     pts = []
     guard = 0
     while len(pts) < BREP and guard < 10 * BREP:
@@ -604,6 +690,7 @@ def _run_mechanics_output(res, case, rng):
     from optimism import Mesh, FunctionSpace, QuadratureRule, Mechanics
     name = case["cfg"]
     cvec = Z.sample_consts(name, rng, yield_strain=float(loguniform(rng, 3e-3, 3e-2)) if Z.is_j2(name) else None)
+    cvec = _apply_case_scale(res, name, cvec, case)
     model = Z.build_model(name, [float(x) for x in cvec])
     mesh = Mesh.construct_structured_mesh(3, 3, [0.0, 1.0], [0.0, 1.0])
     quad = QuadratureRule.create_quadrature_rule_on_triangle(degree=1)
@@ -675,6 +762,8 @@ def run_case(case):
         _run_batched_replica(res, case, rng)
     elif cls == "mechanics_output":
         _run_mechanics_output(res, case, rng)
+    elif cls == "scale_sweep":
+        _run_scale_sweep(res, case, rng)
     else:
         _run_points(res, case, rng)
     return res
